@@ -41,7 +41,7 @@ META = dict(
         "fp lemma: XLA convert_element_type between float formats = IEEE conversion with round-to-nearest-even; z3's single NaN stands for all NaN payloads",
     ],
     outside="T / k beyond the bounds; two chained time filters; decompression of steps before the start step; float round-off of narrowing conversions and of the interpolation arithmetic; sharded recording states (more than one device); other compression modules",
-    bounds=dict(quick=dict(T=[1, 2, 3, 5, 8, 12], k="1..4", start="every 0 <= start < T", t="every start <= t < T"),
+    bounds=dict(quick=dict(T=[1, 2, 3, 5, 8, 12], k="1..4 (T=12: k in {2,4})", start="every 0 <= start < T", t="every start <= t < T"),
                 thorough=dict(T=[1, 2, 3, 4, 5, 6, 7, 8, 9, 10, 11, 12, 16, 20, 27, 33, 40], k="1..8", start="every 0 <= start < T", t="every start <= t < T")),
     timeout_ms=dict(quick=60000, thorough=120000),
 )
@@ -59,18 +59,19 @@ def cases(tier, seed):
     tT = [1, 2, 3, 4, 5, 6, 7, 8, 9, 10, 11, 12, 16, 20, 27, 33, 40]
     for T in (qT if tier == "quick" else tT):
         # one worker handles all start steps of a few k values: eager jax primitives compile once per latent size
-        groups = [[1, 2, 3, 4], [5, 6, 7, 8]] if T < 12 else [[1, 2], [3, 4], [5, 6], [7, 8]]
-        for ks in groups:
-            if tier == "quick" and ks[0] > 4:
+        groups = [[1, 2, 3, 4], [5, 6, 7, 8]] if T < 12 else [[2, 4], [1, 3], [5, 6], [7, 8]]
+        for gi, ks in enumerate(groups):
+            if tier == "quick" and (ks[0] > 4 or (T >= 12 and gi > 0)):
                 continue
-            out.append(dict(name=f"T{T}-k{ks[0]}-{ks[-1]}-lrk", kind="pipe", T=T, ks=ks, pipe="lrk"))
+            out.append(dict(name=f"T{T}-k{'.'.join(map(str, ks))}-lrk", kind="pipe", T=T, ks=ks, pipe="lrk"))
     # module pipelines with DtypeConversion (identities over the reals): fewer (T, k), every start step
     for i, p in enumerate(PIPES[1:]):
         if p in ("W", "none"):
             out.append(dict(name=f"T5-{p}", kind="pipe", T=5, ks=[0], pipe=p))
             continue
-        out.append(dict(name=f"T6-k2-3-{p}", kind="pipe", T=6, ks=[2, 3], pipe=p))
+        out.append(dict(name=f"T6-k3-3-{p}", kind="pipe", T=6, ks=[3], pipe=p))
         if tier != "quick":
+            out.append(dict(name=f"T6-k2-2-{p}", kind="pipe", T=6, ks=[2], pipe=p))
             out.append(dict(name=f"T12-k4-5-{p}", kind="pipe", T=12, ks=[4, 5], pipe=p))
     out.append(dict(name="fp-widening-roundtrip", kind="fp"))
     return out
